@@ -418,6 +418,33 @@ Proof.
     + intros w H. inversion H. reflexivity.
 Qed.
 
+Lemma cgmy_exp_raises_spec m y : cgmy_exp_raises m y = false <-> 1 < m \/ (m = 1 /\ 0 < y).
+Proof.
+  unfold cgmy_exp_raises. rewrite orb_false_iff, andb_false_iff. split.
+  - intros [A [B | B]].
+    + apply Rltb_false in A. destruct (Reqb m (IZR 1)) eqn:E; [discriminate|].
+      left. destruct (Rle_lt_or_eq_dec _ _ A) as [L|L]; [exact L|]. exfalso.
+      assert (Reqb m (IZR 1) = true) by (apply Reqb_true; symmetry; exact L). congruence.
+    + apply Rltb_false in A. apply Rleb_false in B. destruct (Rle_lt_or_eq_dec _ _ A) as [L|L]; [left; exact L | right; split; [symmetry; exact L | exact B]].
+  - intros [L | [E L]].
+    + split; [apply Rltb_false; lra|]. left. destruct (Reqb m (IZR 1)) eqn:Q; auto. apply Reqb_true in Q. lra.
+    + split; [apply Rltb_false; lra|]. right. apply Rleb_false. exact L.
+Qed.
+Lemma cgmy_omega_guard_all : forall m y finite1 z_re z_im kappa,
+  (1 < m \/ (m = 1 /\ 0 < y) -> finite1 = true /\ z_im = 0 /\ z_re = kappa 1) ->
+  (cgmy_exp_omega_checked m y finite1 z_re z_im <> None <-> 1 < m \/ (m = 1 /\ 0 < y))
+  /\ (forall w, cgmy_exp_omega_checked m y finite1 z_re z_im = Some w -> w = - kappa 1).
+Proof.
+  intros m y finite1 z_re z_im kappa Hin. unfold cgmy_exp_omega_checked.
+  destruct (cgmy_exp_raises m y) eqn:E.
+  - assert (N : ~ (1 < m \/ (m = 1 /\ 0 < y))). { intro H. apply cgmy_exp_raises_spec in H. congruence. }
+    split; [split; [intro H; contradiction | intro H; contradiction]|]. intros w H. discriminate.
+  - apply cgmy_exp_raises_spec in E. destruct (Hin E) as (-> & -> & ->).
+    change (kappa 1) with (exp_exponent_at_minus_i kappa). rewrite exp_omega_checked_real. unfold exp_exponent_at_minus_i. split.
+    + split; [intros _; exact E | intros _; discriminate].
+    + intros w H. inversion H. reflexivity.
+Qed.
+
 Lemma coefficients_all : forall uninit k a b, b <> a ->
   (forall c d, is_RInt (fun y => exp y * cosk k a b y) c d (cos_xi k a b c d))
   /\ (forall c d, is_RInt (fun y => cosk k a b y) c d (cos_psi uninit k a b c d))
